@@ -641,6 +641,8 @@ func (g *Gen) stmt(depth int) []Stmt {
 		b2i(deep) * (f.Meta / 3),     // 40 host __call handler / nil-result comparison handlers
 		b2i(deep) * (f.Coroutines / 3), // 41 wrap error inside coroutine / dead by fault
 		b2i(depth == 0 && g.Uses["constant-index-boundary"] == 0) * 1, // 42 constant index boundary (once per program)
+		b2i(deep && g.Uses["w5-c02"] < 2) * (f.Varargs / 3), // 43 (C02 wave 5) table history before unpack / arg table freshness
+		b2i(deep && g.loops == 0 && g.Uses["w5-value-list-matrix"]+g.Uses["w5-for-matrix"] == 0) * 1, // 44 (C01 wave 5) value-list contexts / numeric-for operand matrix (once per program)
 	}
 	switch g.R.Pick(w...) {
 	case 0:
@@ -717,6 +719,7 @@ func (g *Gen) stmt(depth int) []Stmt {
 	case 15:
 		return g.pcallShape(depth, d)
 	case 16:
+		if g.Uses["w5-c03"] < 2 && g.R.Chance(12) { return g.nestedScopeExit(d) } // wave 5, C03: shapes_w5_c03.go
 		return g.closureShape(depth, d)
 	case 17:
 		return g.metaShape(depth, d)
@@ -746,11 +749,13 @@ func (g *Gen) stmt(depth int) []Stmt {
 	case 28:
 		return g.floatFor(d)
 	case 29:
+		if g.R.Chance(40) { return g.w5MetaC04(d) } // wave 5, C04: shapes_w5_c04.go
 		if g.R.Bool() {
 			return g.indexChain(d)
 		}
 		return g.concatEqMeta(d)
 	case 30:
+		if g.Uses["w5-co-history"] < 2 && g.R.Chance(40) { return g.coHistory(d) } // wave 5, C06: shapes_w5_c06.go
 		return g.coTransfer(d)
 	case 31:
 		if g.R.Bool() {
@@ -803,6 +808,12 @@ func (g *Gen) stmt(depth int) []Stmt {
 			return g.wrapErrorInsideCoroutine(d)
 		}
 		return g.deadByFaultClosure(d)
+	case 43:
+		return g.w5c02(d)
+	case 42:
+		return g.constBoundary(d)
+	case 44:
+		return g.w5c01Shape(d)
 	default:
 		return g.constBoundary(d)
 	}
